@@ -18,7 +18,7 @@ import (
 
 // SubEvent is one scripted upstream action.
 type SubEvent struct {
-	Kind    string `json:"kind"` // data | errors-payload | error-frame | complete | close | sleep | garbage
+	Kind    string `json:"kind"` // data | errors-payload | errors+data | error-frame | complete | close | sleep | garbage
 	SleepUs int    `json:"sleep_us,omitempty"`
 }
 
@@ -217,6 +217,14 @@ func (u *WSUpstream) play(rec *UpstreamConn, id string, req *engine.Request, sen
 			res := engine.ExecuteOp(u.Svc.Schema, doc, op, req.Variables, u.Svc.Data, fmt.Sprintf("Subscription@%s#%d", rec.Marker, k))
 			pl := map[string]any{"data": res.Data}
 			if err := send(map[string]any{"id": id, "type": "data", "payload": pl}); err != nil {
+				return
+			}
+			atomic.AddInt32(&rec.Emitted, 1)
+		case "errors+data":
+			// a partial answer: data next to errors
+			k++
+			res := engine.ExecuteOp(u.Svc.Schema, doc, op, req.Variables, u.Svc.Data, fmt.Sprintf("Subscription@%s#%d", rec.Marker, k))
+			if err := send(map[string]any{"id": id, "type": "data", "payload": map[string]any{"data": res.Data, "errors": []any{map[string]any{"message": fmt.Sprintf("upstream partial error %s#%d", rec.Marker, k), "extensions": map[string]any{"k": k}}}}}); err != nil {
 				return
 			}
 			atomic.AddInt32(&rec.Emitted, 1)
